@@ -642,3 +642,126 @@ ANCHORS = [('swh/model/git_objects.py', 'raw_extrinsic_metadata_git_object'),
            ('swh/model/model.py', 'normalize_discovery_date'),
            ('swh/model/model.py', 'RawExtrinsicMetadata.check_*'),
            ('swh/model/model.py', 'ExtID.check_*')]
+
+
+# the case stream has every emd case before the first extid case: coq_cases gets every case and keeps the first few of
+# each kind (it shrinks the list it is given IN PLACE, so that the evidence's `n` is the number evaluated)
+COQ_SAMPLE = 1 << 30
+COQ_PER_KIND = 14
+
+
+def coq_cases(cases):
+    """mk_emd / emd_git_object / parse_emd / parse_ext and mk_extid / extid_git_object / parse_extid / parse_core (+ Sha1.sha1
+    of the manifests) evaluated by vm_compute inside Coq vs the extracted driver (extraction cross-check).  The Coq terms
+    are built from the very request lines the driver receives; the parsers are run on the model's own manifests."""
+    from . import core
+    chosen = []
+    for kind in ("emd", "extid"):
+        n = 0
+        for c in cases:
+            if c["kind"] != kind or n >= COQ_PER_KIND:
+                continue
+            rq = requests(c, {})[0]
+            if len(rq) <= 1200:
+                chosen.append((c, rq))
+                n += 1
+    cases[:] = [c for c, _ in chosen]
+    reqs = [rq for _, rq in chosen]
+    CT = {"snp": "CSnp", "rel": "CRel", "rev": "CRev", "dir": "CDir", "cnt": "CCnt"}
+    TN = {"snp": 0, "rel": 1, "rev": 2, "dir": 3, "cnt": 4, "ori": 5, "emd": 6}
+
+    def z(s):
+        return "(%d)%%Z" % int(s)
+    def nl(h):
+        return "[" + "; ".join("%d" % b for b in core.unhx(h)) + "]%N"
+    def opt(s, f):
+        return "None" if s == "-" else "(Some %s)" % f(s)
+    def csw(s):
+        t, i = s.split(":")
+        return "{| cs_ty := %s; cs_id := %s |}" % (CT[t], nl(i))
+    def esw(s):
+        t, i = s.split(":")
+        return "{| es_ty := %s; es_id := %s |}" % ("EOri" if t == "ori" else "EEmd" if t == "emd" else "(ECore %s)" % CT[t], nl(i))
+    def term(rq):
+        w = rq.split(" ")
+        if w[0] == "extid":
+            return ("extid_case {| x_type := %s; x_extid := %s; x_target := %s; x_version := %s; x_payload_type := %s; x_payload := %s |}"
+                    % (nl(w[1]), nl(w[2]), csw(w[3]), z(w[4]), opt(w[5], nl), opt(w[6], nl)))
+        (_, tg, us, off, au, url, name, ver, fmt, md, origin, visit, snp, rel, rev, path, dr) = w
+        return ("emd_case {| m_target := %s; m_date := {| dt_us := %s; dt_off := %s |}; m_authority := {| au_type := %s; au_url := %s |}; "
+                "m_fetcher := {| fe_name := %s; fe_version := %s |}; m_format := %s; m_metadata := %s; m_origin := %s; m_visit := %s; "
+                "m_snapshot := %s; m_release := %s; m_revision := %s; m_path := %s; m_directory := %s |}"
+                % (esw(tg), z(us), z(off), {"d": "DepositClient", "f": "Forge", "r": "Registry"}[au], nl(url), nl(name), nl(ver),
+                   nl(fmt), nl(md), opt(origin, nl), opt(visit, z), opt(snp, csw), opt(rel, csw), opt(rev, csw), opt(path, nl),
+                   opt(dr, csw)))
+    src = ("From Coq Require Import List NArith ZArith.\nFrom SWH.lib Require Import Bytes Sha1.\nFrom SWH.model Require Import Meta.\n"
+           "Import ListNotations.\n" + core.COQ_CHECKSUM + """
+Definition zz (x : Z) : list N := [if (x <? 0)%Z then 1%N else 0%N; Z.abs_N x].
+Definition ob (o : option (list N)) : list N := match o with Some l => 320%N :: l | None => [321%N] end.
+Definition cn (c : cty) : N := match c with CSnp => 0 | CRel => 1 | CRev => 2 | CDir => 3 | CCnt => 4 end%N.
+Definition tn (t : ety) : N := match t with ECore c => cn c | EOri => 5%N | EEmd => 6%N end.
+Definition show_ext (o : option eswhid) : list N := match o with Some s => tn (es_ty s) :: es_id s | None => [8%N] end.
+Definition show_core (o : option cswhid) : list N := match o with Some s => cn (cs_ty s) :: cs_id s | None => [8%N] end.
+Definition pemd (m : list N) : list N := match parse_emd m with
+  | None => [9%N]
+  | Some f => ef_target f ++ [311%N] ++ zz (ef_second f) ++ auth_word (ef_auth_type f) ++ [311%N] ++ ef_auth_url f ++ [311%N]
+      ++ ef_fetcher_name f ++ [311%N] ++ ef_fetcher_version f ++ [311%N] ++ ef_format f ++ [311%N]
+      ++ concat (map (fun h : list N * list N => fst h ++ [312%N] ++ snd h ++ [313%N]) (ef_context f)) ++ [311%N]
+      ++ ef_metadata f ++ [311%N] ++ show_ext (parse_ext (ef_target f)) end.
+Definition pextid (m : list N) : list N := match parse_extid m with
+  | None => [9%N]
+  | Some f => xf_type f ++ [311%N] ++ zz (xf_version f) ++ xf_extid f ++ [311%N] ++ xf_target f ++ [311%N]
+      ++ ob (xf_payload_type f) ++ ob (xf_payload f) ++ show_core (parse_core (xf_target f)) end.
+Definition emd_case (m : emd) : N := match mk_emd m with
+  | Err _ => 1%N
+  | Ok a => let man := emd_git_object a in
+            cksum (man ++ sha1 man ++ zz (dt_us (m_date a)) ++ zz (dt_off (m_date a)) ++ [310%N] ++ pemd man) end.
+Definition extid_case (e : extid) : N := match mk_extid e with
+  | Err _ => 1%N
+  | Ok e' => match extid_git_object e' with
+             | Ok man => cksum (man ++ sha1 man ++ [310%N] ++ pextid man)
+             | Err _ => 1%N end end.
+""" + "Definition cases : list N := [" + ";\n ".join(term(rq) for rq in reqs) + "].\nEval vm_compute in cases.\n")
+    resp = core.run_driver(ID, reqs)
+    ok = [i for i, r in enumerate(resp) if r.startswith("ok ")]
+    presp = dict(zip(ok, core.run_driver(ID, [("pextid " if reqs[i].startswith("extid") else "pemd ") + resp[i].split(" ")[1]
+                                              for i in ok])))
+    def zz(n):
+        n = int(n)
+        return [1 if n < 0 else 0, abs(n)]
+    def b(h):
+        return list(core.unhx(h))
+    def ob(h):
+        return [321] if h == "-" else [320] + b(h)
+    def sw(s):
+        if s == "none":
+            return [8]
+        t, i = s.split(":")
+        return [TN[t]] + b(i)
+    exp = []
+    for i, (rq, r) in enumerate(zip(reqs, resp)):
+        if not r.startswith("ok "):
+            exp.append(1 if r == "err ValueError" else 3)
+            continue
+        w = r.split(" ")
+        p = presp[i].split(" ")
+        if rq.startswith("extid"):
+            l = b(w[1]) + b(w[2]) + [310]
+            if p[0] != "ok":
+                l += [9]
+            else:
+                l += b(p[1]) + [311] + zz(p[2]) + b(p[3]) + [311] + b(p[4]) + [311] + ob(p[5]) + ob(p[6]) + sw(p[7])
+        else:
+            l = b(w[1]) + b(w[2]) + zz(w[3]) + zz(w[4]) + [310]
+            if p[0] != "ok":
+                l += [9]
+            else:
+                ctx = []
+                if p[8] != ".":
+                    for kv in p[8].split(","):
+                        k, v = kv.split(":")
+                        ctx += b(k) + [312] + b(v) + [313]
+                l += b(p[1]) + [311] + zz(p[2]) + b(p[3]) + [311] + b(p[4]) + [311] + b(p[5]) + [311] + b(p[6]) + [311] + b(p[7]) + \
+                    [311] + ctx + [311] + b(p[9]) + [311] + sw(p[10])
+        exp.append(core.py_cksum(l))
+    return src, exp
